@@ -434,9 +434,19 @@ def r_unsupported(c):
                     "raise")
 
 
+def r_intclass(c):
+    """the Python target treats NumPy integers in shapes and indices as integers
+    (shared with R16-INTCLASS)"""
+    from pta.rules.c16 import int_tests
+    int_tests(c, "R14-UNSUPPORTED", [NL])
+    c.ok("R14-UNSUPPORTED", "target.python.numpy_like",
+         "integer-tests-on-shape-components-use-INT_CLASSES", "pytato/target/python/numpy_like.py:1",
+         nontrivial=False)
+
+
 SPEC = Spec(
     prop="C14",
-    rules=[r_namespace, r_tables, r_consume, r_args, r_unsupported, r_operator_inventory],
+    rules=[r_namespace, r_tables, r_consume, r_args, r_unsupported, r_operator_inventory, r_intclass],
     floors={"R14-NAMESPACE": 40, "R14-TABLES": 50, "R14-CONSUME": 20, "R14-ARGS": 12,
             "R14-UNSUPPORTED": 6},
     explanation=(
